@@ -78,7 +78,17 @@ def _setter_effects(ctx, b):
                     eff[pn[0][1]] = _classify(v)
                 else:
                     eff[".".join(str(x[1]) for x in pn)] = "other:nested"
+        seq = {}
         for e in p.calls():
+            if e.args and strip_wrap(e.args[0])[0] == "field" and strip_wrap(e.args[0])[1] == ("param", 1) and (e.ck.startswith("std::vec::Vec::") or e.ck == "std::iter::Extend::extend"):
+                seq.setdefault(strip_wrap(e.args[0])[2], []).append((e.ck.split("::")[-1], strip_wrap(e.args[1]) if len(e.args) > 1 else None))
+        # `v.clear(); v.extend(param)` replaces the list by the parameter, like `v = param`
+        replaced = {f for f, ops in seq.items() if ops == [("clear", None), ("extend", ("param", 2))]}
+        for f in replaced:
+            eff[f] = "param"
+        for e in p.calls():
+            if e.args and strip_wrap(e.args[0])[0] == "field" and strip_wrap(e.args[0])[1] == ("param", 1) and strip_wrap(e.args[0])[2] in replaced:
+                continue
             if e.ck.startswith("std::vec::Vec::") and e.args and strip_wrap(e.args[0])[0] == "field" and strip_wrap(e.args[0])[1] == ("param", 1):
                 m = e.ck.split("::")[-1]
                 f = strip_wrap(e.args[0])[2]
